@@ -7,6 +7,12 @@
 #include <stdint.h>
 #include <stddef.h>
 #include "ir_prelude.h"
+#if defined(ASSERT_MODE) && !defined(NATIVE)
+/* contract enforced by tools/c2n.py's rewriting instead of goto-instrument --dfcc: requires become assumptions, ensures
+ * become assertions, __CPROVER_old() becomes a snapshot.  Same pre/post semantics; the assigns clause is NOT checked. */
+#define rp_pre_fail(fn, k, text) __CPROVER_assume(0)
+#define rp_ens_fail(fn, k, text) __CPROVER_assert(0, "ensures clause " #k " of " fn ": " text)
+#endif
 #ifndef NATIVE
 #define INPUT(T, name) T name
 #define INPUT_ARR(T, name, N) T name[N]
